@@ -178,7 +178,15 @@ def gen_case(cid, mods_text, actions):
             if vkind == "slot":
                 n = via["table_len"]
                 setup.append(f"let table: Vec<usize> = (0..{max(n, 1)}).map(|i| crate::__rig::STUBS[i % {NSTUBS}] as usize).collect();")
-                setup.append("*sub = table.as_ptr() as usize;")
+                if k == "vcall" and a.get("vpath"):
+                    # the pointer lives in a base sub-object: the object's own first word gets a decoy table whose every slot
+                    # is another stub, the real table goes where the pointer is declared to be
+                    setup.append(f"let decoy: Vec<usize> = (0..{max(n, 1)}).map(|i| crate::__rig::STUBS[(i + 1) % {NSTUBS}] as usize).collect();")
+                    setup.append("*sub = decoy.as_ptr() as usize;")
+                    setup.append(f"let vp = ::core::ptr::addr_of_mut!((*obj).{'.'.join(a['vpath'])}) as *mut usize;")
+                    setup.append("*vp = table.as_ptr() as usize;")
+                else:
+                    setup.append("*sub = table.as_ptr() as usize;")
                 exp["stub"] = via["slot"] % NSTUBS
             else:
                 addr = via["addr"]
